@@ -1217,3 +1217,61 @@ def case_split_to_sequence_keepdims():
 
 
 CASES["split_to_sequence_keepdims"] = case_split_to_sequence_keepdims
+
+
+def case_slices_split():
+    """SlicesSplit at the level of the rule's own check() (the shipped matcher cannot bind this two-output pattern yet — upstream issue 1642 —
+    so the rule is exercised directly on real ir values): when check() accepts, Split(x, num_outputs=2, axis=-1) must give what the two
+    Slices give (onnxruntime)."""
+    import onnx_ir as ir
+    import onnxruntime as ort
+    from onnxscript.rewriter.rules.common import _basic_rules
+    ort.set_default_logger_severity(4)
+    bad = 0
+
+    def const(name, v, graph=None):
+        val = ir.Value(name=name, type=ir.TensorType(ir.DataType.INT64), shape=ir.Shape([len(v)]), const_value=ir.tensor(np.array(v, dtype=np.int64), name=name))
+        return val
+    for d, overridable in ((1, False), (3, False), (4, False), (5, False), (4, True)):
+        h = d // 2
+        x = ir.Value(name="x", type=ir.TensorType(ir.DataType.FLOAT), shape=ir.Shape([2, d]))
+        vals = {n: const(n, v) for n, v in (("b0", [0]), ("e0", [h]), ("b1", [h]), ("e1", [d]), ("ax0", [1]), ("ax1", [1]))}
+        s0 = ir.node("Slice", [x, vals["b0"], vals["e0"], vals["ax0"]]); s1 = ir.node("Slice", [x, vals["b1"], vals["e1"], vals["ax1"]])
+        s0.outputs[0].name, s1.outputs[0].name = "y0", "y1"
+        inputs = [x] + ([vals["e0"]] if overridable else [])
+        g = ir.Graph(inputs, [s0.outputs[0], s1.outputs[0]], nodes=[s0, s1], initializers=list(vals.values()), opset_imports={"": 18}, name="g")
+        model = ir.Model(g, ir_version=9)
+        rule = _basic_rules.SlicesSplit()
+        try:
+            accepted = bool(rule.check(None, x, vals["b0"], vals["e0"], vals["ax0"], vals["b1"], vals["e1"], vals["ax1"]))
+        except Exception as e:  # noqa: BLE001
+            print(f"SlicesSplit.check raises {type(e).__name__}: {e}")
+            bad += 1
+            continue
+        if not accepted:
+            continue
+        proto = ir.serde.serialize_model(model)
+        xv = np.arange(2 * d, dtype=np.float32).reshape(2, d)
+        feeds = {"x": xv}
+        if overridable:
+            feeds["e0"] = np.array([1], dtype=np.int64)
+        before = ort.InferenceSession(proto.SerializeToString(), providers=["CPUExecutionProvider"]).run(None, feeds)
+        sg = helper.make_graph([helper.make_node("Split", ["x"], ["y0", "y1"], axis=-1, num_outputs=2)], "g", [vi("x", TensorProto.FLOAT, [2, d])],
+                               [vi("y0", TensorProto.FLOAT, None), vi("y1", TensorProto.FLOAT, None)])
+        sm = helper.make_model(sg, opset_imports=[helper.make_opsetid("", 18)], ir_version=9)
+        try:
+            after = ort.InferenceSession(sm.SerializeToString(), providers=["CPUExecutionProvider"]).run(None, {"x": xv})
+        except Exception as e:  # noqa: BLE001
+            print(f"SlicesSplit.check accepts Slice(x, 0:{h}), Slice(x, {h}:{d}) on x[2,{d}]: the slices give shapes {[a.shape for a in before]}, "
+                  f"the replacement Split(x, num_outputs=2, axis=-1) fails: {str(e).splitlines()[0][-90:]}")
+            bad += 1
+            continue
+        if [a.shape for a in before] != [a.shape for a in after] or not all(np.array_equal(a, b) for a, b in zip(before, after)):
+            what = f"with the end of the first slice an initializer that is also a graph input, fed [1]" if overridable else f"x[2,{d}]"
+            print(f"SlicesSplit.check accepts Slice(x, 0:{h}), Slice(x, {h}:{d}) on the last axis ({what}): the slices give shapes "
+                  f"{[a.shape for a in before]}, the replacement Split(x, num_outputs=2, axis=-1) gives {[a.shape for a in after]}")
+            bad += 1
+    return bad
+
+
+CASES["slices_split"] = case_slices_split
